@@ -968,3 +968,447 @@ pub fn generate_findings(_seed: u64, thorough: bool) -> Family {
     }
     fam
 }
+
+// ================================================================================================ probes
+// Deterministic probe scripts: each one drives the real contracts into one narrow situation that random
+// exploration reaches rarely (asset order after a slippage-protected deposit, foreign lock identifiers, malformed
+// route junctions, extra fees, feature-switch combinations, expiry windows, exhausted farms, thirds, position
+// limits, fractional weights, failing refunds ...). Amounts vary with the case's PRNG; everything is compared
+// with the model after every operation like any other case.
+impl Gen {
+    fn amt(&mut self, base: u128) -> u128 { base + self.rng.below(base as u64 / 7 + 3) as u128 }
+    fn plain_provide(&mut self, who: &str, pool: &str, f: Vec<SCoin>, liq: Option<u128>) -> bool {
+        self.tx(who, SMsg::PmProvide { liq_slip: liq, swap_slip: None, receiver: None, pool: pool.to_string(), unlock: None, lock_id: None }, f)
+    }
+    fn swap_to(&mut self, who: &str, pool: &str, offer: SCoin, ask: &str) -> bool {
+        self.query(SQuery::Simulation { offer: offer.clone(), ask: ask.to_string(), pool: pool.to_string() });
+        self.tx(who, SMsg::PmSwap { ask: ask.to_string(), belief: None, max_slip: Some(DEC / 2), receiver: None, pool: pool.to_string() }, vec![offer])
+    }
+    fn drain(&mut self, pool: &str) {
+        let lp = self.lp_of(pool);
+        for u in self.users() {
+            let bal = self.sim.balance(&u, &lp);
+            if bal > 0 { self.tx(&u, SMsg::PmWithdraw { pool: pool.to_string() }, vec![(lp.clone(), bal)]); }
+        }
+    }
+
+    /// pools whose denoms were declared out of alphabetical order, a slippage-protected deposit (which stores the
+    /// reserves sorted), then swaps, skewed deposits and a complete drain
+    fn probe_asset_order(&mut self) {
+        let fees = Self::std_fees();
+        let Some(cp) = self.mk_pool("cp", &[("uusd", 6), ("uom", 6)], None, fees.clone()) else { return; };
+        let Some(ss) = self.mk_pool("ss", &[("uusdc", 6), ("aweth", 18), ("ubtc", 8)], Some(100), fees.clone()) else { return; };
+        let a = self.amt(2_000_000_000);
+        self.plain_provide("alice", &cp, vec![("uom".into(), a), ("uusd".into(), 3 * a)], None);
+        self.plain_provide("alice", &ss, vec![("aweth".into(), 1_000_000 * 10u128.pow(18)), ("ubtc".into(), 1_000_000 * 10u128.pow(8)), ("uusdc".into(), 1_000_000 * 10u128.pow(6))], None);
+        self.swap_to("bob", &cp, ("uusd".into(), a / 9), "uom");
+        self.swap_to("bob", &ss, ("ubtc".into(), 300_000 * 10u128.pow(8)), "uusdc");
+        // slippage-protected deposits
+        let pi = self.pool_info(&cp);
+        let f: Vec<SCoin> = pi.assets.iter().map(|c| (self.sim.sym(&c.denom), c.amount.u128() / 50)).collect();
+        self.plain_provide("bob", &cp, f, Some(DEC / 100));
+        self.plain_provide("bob", &ss, vec![("aweth".into(), 3), ("ubtc".into(), 2), ("uusdc".into(), 1)], Some(DEC));
+        // trades, both directions, direct and routed
+        let b = self.amt(40_000_000);
+        self.swap_to("carol", &cp, ("uom".into(), b), "uusd");
+        self.swap_to("carol", &cp, ("uusd".into(), b), "uom");
+        self.swap_to("carol", &ss, ("uusdc".into(), 5_000 * 10u128.pow(6)), "aweth");
+        self.swap_to("carol", &ss, ("aweth".into(), 7_000 * 10u128.pow(18)), "ubtc");
+        self.swap_to("carol", &ss, ("ubtc".into(), 900 * 10u128.pow(8)), "uusdc");
+        self.tx("carol", SMsg::PmRoute { ops: vec![SSwapOp { t_in: "uom".into(), t_out: "uusd".into(), pool: cp.clone() }], min_receive: None, receiver: None, max_slip: Some(DEC / 2) }, vec![("uom".into(), b / 3)]);
+        // deposits that are not proportional to the (now imbalanced) reserves
+        self.plain_provide("carol", &ss, vec![("aweth".into(), 1_000 * 10u128.pow(18)), ("ubtc".into(), 1_000 * 10u128.pow(8)), ("uusdc".into(), 1_000 * 10u128.pow(6))], None);
+        self.plain_provide("carol", &cp, vec![("uom".into(), b), ("uusd".into(), b)], None);
+        self.tx("carol", SMsg::PmProvide { liq_slip: None, swap_slip: Some(DEC / 2), receiver: None, pool: cp.clone(), unlock: None, lock_id: None }, vec![("uusd".into(), b | 1)]);
+        self.drain(&ss);
+        self.drain(&cp);
+    }
+
+    /// locking through the pool manager: into nobody's, one's own and somebody else's position, single and multi asset
+    fn probe_foreign_lock(&mut self) {
+        let Some(p) = self.mk_pool("a", &[("uom", 6), ("uusd", 6)], None, Self::std_fees()) else { return; };
+        let lp = self.lp_of(&p);
+        let a = self.amt(1_000_000_000);
+        for u in ["alice", "bob", "carol"] { self.plain_provide(u, &p, vec![("uom".into(), a), ("uusd".into(), a)], None); }
+        self.tx("bob", SMsg::FmPosCreate { id: Some("v".into()), dur: 30 * DAY, receiver: None }, vec![(lp.clone(), 50_000)]);
+        self.tx("carol", SMsg::PmProvide { liq_slip: None, swap_slip: None, receiver: None, pool: p.clone(), unlock: Some(30 * DAY), lock_id: Some("own".into()) }, vec![("uom".into(), 70_000), ("uusd".into(), 70_000)]);
+        let both: Vec<SCoin> = vec![("uom".into(), 40_000), ("uusd".into(), 40_000)];
+        let one: Vec<SCoin> = vec![("uusd".into(), 80_001)];
+        for (who, id, funds, recv) in [
+            ("carol", "u-v", one.clone(), None), ("carol", "u-v", both.clone(), None), ("carol", "v", one.clone(), None),
+            ("carol", "u-own", one.clone(), None), ("carol", "u-own", both.clone(), None),
+            ("alice", "u-own", one.clone(), None), ("alice", "u-v", one.clone(), Some("bob".to_string())), ("alice", "fresh", one.clone(), Some("bob".to_string())),
+            ("alice", "mine", one.clone(), None), ("alice", "u-mine", one.clone(), None),
+        ] {
+            self.tx(who, SMsg::PmProvide { liq_slip: None, swap_slip: Some(DEC / 2), receiver: recv, pool: p.clone(), unlock: Some(30 * DAY), lock_id: Some(id.to_string()) }, funds);
+        }
+        self.next_epoch();
+        for u in ["alice", "bob", "carol"] { self.q_rewards(u, None); }
+    }
+
+    /// routes: well-formed three hops, malformed junctions at every position, the same pool twice
+    fn probe_routes(&mut self) {
+        let fees = Self::std_fees();
+        let Some(a) = self.mk_pool("a", &[("uom", 6), ("uusd", 6)], None, fees.clone()) else { return; };
+        let Some(b) = self.mk_pool("b", &[("uusd", 6), ("uusdc", 6)], None, fees.clone()) else { return; };
+        let Some(s) = self.mk_pool("s", &[("uusd", 6), ("uusdc", 6), ("ubtc", 8)], Some(85), fees.clone()) else { return; };
+        let x = self.amt(3_000_000_000);
+        self.plain_provide("alice", &a, vec![("uom".into(), x), ("uusd".into(), 2 * x)], None);
+        self.plain_provide("alice", &b, vec![("uusd".into(), x), ("uusdc".into(), x + 77)], None);
+        self.plain_provide("alice", &s, vec![("ubtc".into(), 40 * x), ("uusd".into(), 3 * x), ("uusdc".into(), x / 2)], None);
+        let op = |i: &str, o: &str, p: &String| SSwapOp { t_in: i.to_string(), t_out: o.to_string(), pool: p.clone() };
+        let routes: Vec<Vec<SSwapOp>> = vec![
+            vec![op("uom", "uusd", &a), op("uusd", "uusdc", &b), op("uusdc", "ubtc", &s)],
+            vec![op("uom", "uusd", &a), op("uusd", "uusdc", &b), op("uusd", "ubtc", &s)],      // junction 1->2 broken
+            vec![op("uom", "uusd", &a), op("uusdc", "uusd", &b), op("uusd", "ubtc", &s)],       // junction 0->1 broken
+            vec![op("uom", "uusd", &a), op("uusd", "uusdc", &s), op("uusdc", "uusd", &b), op("uusdc", "ubtc", &s)], // 2->3 broken, pool twice
+            vec![op("uom", "uusd", &a), op("uusd", "uom", &a)],
+            vec![op("uom", "uusd", &a), op("uusd", "ubtc", &s)],
+        ];
+        for ops in routes {
+            let amt = self.amt(5_000_000);
+            let v = self.query(SQuery::SimOps { amount: amt, ops: ops.clone() });
+            let q = q_ok_fields(&v).map(|f| f[0]);
+            if let Some(q) = q { self.query(SQuery::RevSimOps { amount: q.max(1), ops: ops.clone() }); }
+            self.tx("bob", SMsg::PmRoute { ops, min_receive: q, receiver: None, max_slip: Some(DEC / 2) }, vec![("uom".into(), amt)]);
+        }
+    }
+
+    /// a pool with extra fees and a burn fee: every swap path, then a complete drain
+    fn probe_extra_fees(&mut self) {
+        let fees = SFees { protocol: 2 * DEC / 1000, swap: 3 * DEC / 1000, burn: DEC / 1000, extra: vec![15 * DEC / 1000, 4 * DEC / 1000] };
+        let Some(p) = self.mk_pool("x", &[("uom", 6), ("uusd", 6)], None, fees.clone()) else { return; };
+        let Some(s) = self.mk_pool("y", &[("uusd", 6), ("uusdc", 6)], Some(60), fees) else { return; };
+        let a = self.amt(1_000_000_000);
+        self.plain_provide("alice", &p, vec![("uom".into(), a), ("uusd".into(), a)], None);
+        self.plain_provide("bob", &s, vec![("uusd".into(), a), ("uusdc".into(), a)], None);
+        for i in 0..4u128 {
+            let x = self.amt(9_000_000) * (i + 1);
+            self.swap_to("carol", &p, ("uom".into(), x), "uusd");
+            self.swap_to("carol", &p, ("uusd".into(), x / 2), "uom");
+            self.swap_to("carol", &s, ("uusd".into(), x), "uusdc");
+            self.tx("carol", SMsg::PmRoute { ops: vec![SSwapOp { t_in: "uom".into(), t_out: "uusd".into(), pool: p.clone() }, SSwapOp { t_in: "uusd".into(), t_out: "uusdc".into(), pool: s.clone() }], min_receive: None, receiver: None, max_slip: Some(DEC / 2) }, vec![("uom".into(), x)]);
+        }
+        self.tx("carol", SMsg::PmProvide { liq_slip: None, swap_slip: Some(DEC / 2), receiver: None, pool: p.clone(), unlock: None, lock_id: None }, vec![("uom".into(), 1_000_001)]);
+        self.drain(&p);
+        self.drain(&s);
+    }
+
+    /// every combination of the three feature switches against every operation
+    fn probe_toggles(&mut self) {
+        let Some(p) = self.mk_pool("a", &[("uom", 6), ("uusd", 6)], None, Self::std_fees()) else { return; };
+        let Some(o) = self.mk_pool("b", &[("uusd", 6), ("uusdc", 6)], None, Self::std_fees()) else { return; };
+        let lp = self.lp_of(&p);
+        let a = self.amt(1_000_000_000);
+        for u in ["alice", "bob"] { self.plain_provide(u, &p, vec![("uom".into(), a), ("uusd".into(), a)], None); }
+        self.plain_provide("alice", &o, vec![("uusd".into(), a), ("uusdc".into(), a)], None);
+        let owner = self.current_owner("PM");
+        for m in 0..8u32 {
+            let (w, d, s) = (m & 1 != 0, m & 2 != 0, m & 4 != 0);
+            self.tx(&owner, SMsg::PmUpdateConfig { fc: None, fm: None, fee: None, toggle: Some((p.clone(), Some(w), Some(d), Some(s))) }, vec![]);
+            self.tx("bob", SMsg::PmSwap { ask: "uusd".into(), belief: None, max_slip: Some(DEC / 2), receiver: None, pool: p.clone() }, vec![("uom".into(), 10_000 + m as u128)]);
+            self.tx("bob", SMsg::PmRoute { ops: vec![SSwapOp { t_in: "uusdc".into(), t_out: "uusd".into(), pool: o.clone() }, SSwapOp { t_in: "uusd".into(), t_out: "uom".into(), pool: p.clone() }], min_receive: None, receiver: None, max_slip: Some(DEC / 2) }, vec![("uusdc".into(), 9_000)]);
+            self.plain_provide("bob", &p, vec![("uom".into(), 5_000), ("uusd".into(), 5_000)], None);
+            self.tx("bob", SMsg::PmProvide { liq_slip: None, swap_slip: Some(DEC / 2), receiver: None, pool: p.clone(), unlock: None, lock_id: None }, vec![("uom".into(), 8_001)]);
+            self.tx("bob", SMsg::PmProvide { liq_slip: None, swap_slip: None, receiver: None, pool: p.clone(), unlock: Some(DAY), lock_id: None }, vec![("uom".into(), 3_000), ("uusd".into(), 3_000)]);
+            self.tx("bob", SMsg::PmWithdraw { pool: p.clone() }, vec![(lp.clone(), 1_000)]);
+            // the other pool is unaffected
+            self.tx("bob", SMsg::PmSwap { ask: "uusdc".into(), belief: None, max_slip: Some(DEC / 2), receiver: None, pool: o.clone() }, vec![("uusd".into(), 1_000)]);
+        }
+        // partial updates keep the other flags
+        self.tx(&owner, SMsg::PmUpdateConfig { fc: None, fm: None, fee: None, toggle: Some((p.clone(), None, Some(true), None)) }, vec![]);
+        self.tx(&owner, SMsg::PmUpdateConfig { fc: None, fm: None, fee: None, toggle: Some((p.clone(), Some(true), None, None)) }, vec![]);
+        self.tx("bob", SMsg::PmWithdraw { pool: p.clone() }, vec![(lp.clone(), 1_000)]);
+    }
+
+    /// single-asset deposits: larger pools, tight liquidity tolerance with a loose swap tolerance, odd amounts
+    fn probe_single_sided(&mut self) {
+        let Some(p) = self.mk_pool("a", &[("uom", 6), ("uusd", 6)], None, Self::std_fees()) else { return; };
+        let Some(s3) = self.mk_pool("t", &[("uusd", 6), ("uusdc", 6), ("uom", 6)], Some(85), Self::std_fees()) else { return; };
+        let Some(s2) = self.mk_pool("u", &[("uusd", 6), ("uusdc", 6)], Some(85), Self::std_fees()) else { return; };
+        self.plain_provide("alice", &p, vec![("uom".into(), 1_000_000), ("uusd".into(), 1_000_000)], None);
+        self.plain_provide("alice", &s3, vec![("uom".into(), 1_000_000), ("uusd".into(), 1_000_000), ("uusdc".into(), 1_000_000)], None);
+        self.plain_provide("alice", &s2, vec![("uusd".into(), 1_000_000), ("uusdc".into(), 1_000_000)], None);
+        let one = |d: &str, a: u128| -> Vec<SCoin> { vec![(d.to_string(), a)] };
+        self.tx("bob", SMsg::PmProvide { liq_slip: None, swap_slip: Some(DEC / 2), receiver: None, pool: s3.clone(), unlock: None, lock_id: None }, one("uusd", 10_001));
+        let big = self.amt(200_000);
+        for (liq, swp) in [(Some(DEC / 20), Some(DEC / 5)), (Some(DEC / 5), Some(DEC / 20)), (None, Some(DEC / 5)), (Some(DEC / 20), None)] {
+            self.tx("bob", SMsg::PmProvide { liq_slip: liq, swap_slip: swp, receiver: None, pool: p.clone(), unlock: None, lock_id: None }, one("uom", big));
+            self.tx("bob", SMsg::PmProvide { liq_slip: liq, swap_slip: swp, receiver: None, pool: s2.clone(), unlock: None, lock_id: None }, one("uusdc", big));
+        }
+        for a in [1u128, 2, 3, 1001, 77_777] {
+            self.tx("carol", SMsg::PmProvide { liq_slip: None, swap_slip: Some(DEC / 2), receiver: None, pool: p.clone(), unlock: None, lock_id: None }, one("uusd", a));
+        }
+        self.tx("carol", SMsg::PmProvide { liq_slip: None, swap_slip: Some(DEC / 2), receiver: Some("alice".into()), pool: p.clone(), unlock: None, lock_id: None }, one("uusd", 5_001));
+        self.drain(&p);
+    }
+
+    /// farm creation and expansion funds when the fee denom equals the reward denom
+    fn probe_farm_funds(&mut self) {
+        let Some(p) = self.mk_pool("a", &[("uom", 6), ("uusd", 6)], None, Self::std_fees()) else { return; };
+        let lp = self.lp_of(&p);
+        self.plain_provide("alice", &p, vec![("uom".into(), 1_000_000_000), ("uusd".into(), 1_000_000_000)], None);
+        self.tx("alice", SMsg::FmPosCreate { id: Some("a".into()), dur: DAY, receiver: None }, vec![(lp.clone(), 1000)]);
+        let cfg = self.fm_cfg();
+        let fee = (self.sim.sym(&cfg.create_farm_fee.denom), cfg.create_farm_fee.amount.u128());
+        let cur = self.sim.current_epoch().unwrap_or(0);
+        for (i, sent) in [fee.1, fee.1 + 4000, fee.1 + 3999, 4000, fee.1 + 4001, fee.1 + 8000].iter().enumerate() {
+            let params = SFarmParams { lp: lp.clone(), start: Some(cur + 1), end: Some(cur + 5), asset: (fee.0.clone(), 4000), id: Some(format!("f{}", i)) };
+            self.tx("bob", SMsg::FmCreateFarm(params), vec![(fee.0.clone(), *sent)]);
+        }
+        // expansion: declared amount against attached amount
+        let farms = self.sim.farms();
+        if let Some(f) = farms.first() {
+            let id = f.identifier.clone();
+            let owner = self.sim.sym(f.owner.as_str());
+            let d = self.sim.sym(&f.farm_asset.denom);
+            for (decl, sent) in [(50_000u128, 1_000u128), (1_000, 50_000), (2_000, 2_000), (1_001, 1_001)] {
+                self.tx(&owner, SMsg::FmExpandFarm(SFarmParams { lp: lp.clone(), start: None, end: None, asset: (d.clone(), decl), id: Some(id.clone()) }), vec![(d.clone(), sent)]);
+            }
+            self.tx(&owner, SMsg::FmCloseFarm(id), vec![]);
+        }
+    }
+
+    /// automatic closing of expired farms: third-party creations around the expiry instant
+    fn probe_expiry_window(&mut self) {
+        let Some(p) = self.mk_pool("a", &[("uom", 6), ("uusd", 6)], None, Self::std_fees()) else { return; };
+        let lp = self.lp_of(&p);
+        self.plain_provide("alice", &p, vec![("uom".into(), 1_000_000_000), ("uusd".into(), 1_000_000_000)], None);
+        self.tx("alice", SMsg::FmPosCreate { id: Some("a".into()), dur: DAY, receiver: None }, vec![(lp.clone(), 1000)]);
+        let t0 = self.sim.block().time.seconds();
+        let d = self.epoch_secs();
+        let cur = self.sim.current_epoch().unwrap_or(0);
+        self.mk_farm("bob", &lp, "uusd", 1000, 4, Some("old".into()), 1); // epochs cur+1 .. cur+5
+        let end = cur + 5;
+        let exp = self.fm_cfg().farm_expiration_time;
+        let g = t0 - (t0 % d).min(0); // epoch 0 starts at genesis = t0 in these scenarios
+        let probes = [g + end * d + exp - 10, g + end * d + exp + d / 2, g + (end + 1) * d + exp - 5, g + (end + 1) * d + exp + 5];
+        for (i, t) in probes.iter().enumerate() {
+            let now = self.sim.block().time.seconds();
+            if *t > now { self.advance(*t - now); }
+            self.q_rewards("alice", None);
+            self.mk_farm("carol", &lp, "uom", 1000, 2, Some(format!("n{}", i)), 1);
+        }
+        self.tx("alice", SMsg::FmClaim(None), vec![]);
+    }
+
+    /// emergency withdrawal: who shares the penalty (exhausted farm, farms beyond the tenth, future farms)
+    fn probe_penalty_split(&mut self) {
+        let Some(p) = self.mk_pool("a", &[("uom", 6), ("uusd", 6)], None, Self::std_fees()) else { return; };
+        let lp = self.lp_of(&p);
+        self.plain_provide("alice", &p, vec![("uom".into(), 1_000_000_000), ("uusd".into(), 1_000_000_000)], None);
+        let owner = self.current_owner("FM");
+        let mut u = SFmUpdate::default(); u.max_farms = Some(13);
+        self.tx(&owner, SMsg::FmUpdateConfig(u), vec![]);
+        self.tx("alice", SMsg::FmPosCreate { id: Some("a".into()), dur: 30 * DAY, receiver: None }, vec![(lp.clone(), 1000)]);
+        self.tx("alice", SMsg::FmPosCreate { id: Some("b".into()), dur: 30 * DAY, receiver: None }, vec![(lp.clone(), 1000)]);
+        self.tx("alice", SMsg::FmPosCreate { id: Some("c".into()), dur: 30 * DAY, receiver: None }, vec![(lp.clone(), 1000)]);
+        self.mk_farm("bob", &lp, "uusd", 1000, 2, Some("short".into()), 1); // epochs 1..3: emissions at 1 and 2
+        self.next_epoch();
+        self.next_epoch(); // epoch 2
+        self.tx("alice", SMsg::FmClaim(None), vec![]); // the whole budget is claimed
+        self.tx("alice", SMsg::FmPosWithdraw("u-a".into(), Some(true)), vec![]);
+        // ten farms that start later, and one active farm whose identifier sorts after them
+        for i in 0..10u32 { self.mk_farm("carol", &lp, "uom", 1000, 2, Some(format!("a{:02}", i)), 9); }
+        self.mk_farm("bob", &lp, "uusd", 1000, 3, Some("z-active".into()), 1);
+        self.next_epoch();
+        self.tx("alice", SMsg::FmPosWithdraw("u-b".into(), Some(true)), vec![]);
+        self.next_epoch();
+        self.tx("alice", SMsg::FmPosWithdraw("u-c".into(), Some(true)), vec![]);
+    }
+
+    /// shares with no finite decimal expansion, tiny and huge emissions
+    fn probe_thirds(&mut self) {
+        let Some(p) = self.mk_pool("a", &[("uom", 6), ("uusd", 6)], None, Self::std_fees()) else { return; };
+        let lp = self.lp_of(&p);
+        for u in ["alice", "bob", "carol"] {
+            self.plain_provide(u, &p, vec![("uom".into(), 1_000_000_000), ("uusd".into(), 1_000_000_000)], None);
+            self.tx(u, SMsg::FmPosCreate { id: None, dur: DAY, receiver: None }, vec![(lp.clone(), 1000)]);
+        }
+        self.mk_farm("owner", &lp, "uusd", 3000, 4, Some("t".into()), 1);
+        self.mk_farm("owner", &lp, "aweth", 10u128.pow(24) + 1, 4, Some("h".into()), 1);
+        self.mk_farm("owner", &lp, "uusdc", 7, 4, Some("d".into()), 1);
+        for _ in 0..3 {
+            self.next_epoch();
+            for u in ["alice", "bob", "carol"] { self.q_rewards(u, None); }
+            self.tx("alice", SMsg::FmClaim(None), vec![]);
+        }
+        self.tx("bob", SMsg::FmClaim(None), vec![]);
+        self.next_epoch();
+        self.next_epoch();
+        for u in ["alice", "bob", "carol"] { self.tx(u, SMsg::FmClaim(None), vec![]); }
+    }
+
+    /// the open-positions limit, reached directly and through the pool manager
+    fn probe_position_limit(&mut self) {
+        let Some(p) = self.mk_pool("a", &[("uom", 6), ("uusd", 6)], None, Self::std_fees()) else { return; };
+        let Some(q) = self.mk_pool("b", &[("uusdc", 6), ("uusd", 6)], None, Self::std_fees()) else { return; };
+        let (lp, lq) = (self.lp_of(&p), self.lp_of(&q));
+        self.plain_provide("alice", &p, vec![("uom".into(), 1_000_000_000), ("uusd".into(), 1_000_000_000)], None);
+        self.plain_provide("bob", &q, vec![("uusdc".into(), 1_000_000_000), ("uusd".into(), 1_000_000_000)], None);
+        self.tx("bob", SMsg::FmPosCreate { id: Some("w".into()), dur: DAY, receiver: None }, vec![(lq.clone(), 1000)]);
+        self.mk_farm("carol", &lq, "uom", 1000, 6, Some("fq".into()), 1);
+        for i in 0..10u32 { self.tx("alice", SMsg::FmPosCreate { id: Some(format!("k{:02}", i)), dur: DAY, receiver: None }, vec![(lp.clone(), 100)]); }
+        // the eleventh, through every door
+        self.tx("alice", SMsg::PmProvide { liq_slip: None, swap_slip: None, receiver: None, pool: q.clone(), unlock: Some(DAY), lock_id: Some("zz".into()) }, vec![("uusdc".into(), 50_000), ("uusd".into(), 50_000)]);
+        self.tx("alice", SMsg::PmProvide { liq_slip: None, swap_slip: Some(DEC / 2), receiver: None, pool: q.clone(), unlock: Some(DAY), lock_id: None }, vec![("uusd".into(), 50_001)]);
+        self.tx("alice", SMsg::FmPosCreate { id: Some("zy".into()), dur: DAY, receiver: None }, vec![(lp.clone(), 100)]);
+        self.tx("bob", SMsg::FmPosCreate { id: Some("zx".into()), dur: DAY, receiver: Some("alice".into()) }, vec![(lq.clone(), 100)]);
+        for _ in 0..2 { self.next_epoch(); self.q_rewards("alice", None); self.q_rewards("bob", None); self.tx("alice", SMsg::FmClaim(None), vec![]); }
+        self.tx("alice", SMsg::FmPosClose("u-k00".into(), None), vec![]);
+        self.tx("alice", SMsg::PmProvide { liq_slip: None, swap_slip: None, receiver: None, pool: q.clone(), unlock: Some(DAY), lock_id: Some("zz".into()) }, vec![("uusdc".into(), 50_000), ("uusd".into(), 50_000)]);
+        self.next_epoch();
+        self.q_rewards("alice", None);
+        self.tx("alice", SMsg::FmClaim(None), vec![]);
+    }
+
+    /// claims that pay nothing, in the opening epoch and later; until_epoch claims around an expansion
+    fn probe_empty_claims(&mut self) {
+        let Some(p) = self.mk_pool("a", &[("uom", 6), ("uusd", 6)], None, Self::std_fees()) else { return; };
+        let Some(q) = self.mk_pool("b", &[("uusdc", 6), ("uusd", 6)], None, Self::std_fees()) else { return; };
+        let (lp, lq) = (self.lp_of(&p), self.lp_of(&q));
+        for u in ["alice", "bob", "carol"] { self.plain_provide(u, &p, vec![("uom".into(), 1_000_000_000), ("uusd".into(), 1_000_000_000)], None); }
+        self.plain_provide("carol", &q, vec![("uusdc".into(), 1_000_000_000), ("uusd".into(), 1_000_000_000)], None);
+        self.tx("carol", SMsg::FmPosCreate { id: Some("c".into()), dur: DAY, receiver: None }, vec![(lp.clone(), 1000)]);
+        self.tx("carol", SMsg::FmPosCreate { id: Some("cq".into()), dur: DAY, receiver: None }, vec![(lq.clone(), 1000)]);
+        self.mk_farm("owner", &lp, "uusd", 1000, 8, Some("f".into()), 1);
+        self.mk_farm("owner", &lq, "uusd", 12_500, 8, Some("g".into()), 1);
+        for _ in 0..5 { self.next_epoch(); }
+        self.tx("bob", SMsg::FmPosCreate { id: Some("b".into()), dur: DAY, receiver: None }, vec![(lp.clone(), 1000)]);
+        self.tx("bob", SMsg::FmClaim(None), vec![]); // pays nothing
+        self.tx("alice", SMsg::FmPosCreate { id: Some("a".into()), dur: DAY, receiver: None }, vec![(lp.clone(), 1000)]);
+        self.next_epoch();
+        self.q_rewards("bob", None);
+        self.tx("bob", SMsg::FmClaim(None), vec![]);
+        self.tx("alice", SMsg::FmPosExpand("u-a".into()), vec![(lp.clone(), 9000)]);
+        self.next_epoch();
+        self.q_rewards("alice", None);
+        self.tx("alice", SMsg::FmClaim(None), vec![]);
+        self.tx("carol", SMsg::FmClaim(None), vec![]);
+        self.next_epoch();
+        for u in ["alice", "bob", "carol"] { self.q_rewards(u, None); self.tx(u, SMsg::FmClaim(None), vec![]); }
+        self.tx("owner", SMsg::FmCloseFarm("m-g".into()), vec![]);
+    }
+
+    /// weights with fractional multipliers closed in pieces; unlocking bounds changed while positions exist
+    fn probe_fractional_weights(&mut self) {
+        let Some(p) = self.mk_pool("a", &[("uom", 6), ("uusd", 6)], None, Self::std_fees()) else { return; };
+        let lp = self.lp_of(&p);
+        for u in ["alice", "bob", "carol"] { self.plain_provide(u, &p, vec![("uom".into(), 1_000_000_000), ("uusd".into(), 1_000_000_000)], None); }
+        self.mk_farm("owner", &lp, "uusd", 10_000, 8, Some("f".into()), 1);
+        let dur = *self.rng.pick(&[15_778_463u64, 7_000_001, 20_000_003]);
+        self.tx("alice", SMsg::FmPosCreate { id: Some("a".into()), dur, receiver: None }, vec![(lp.clone(), 2)]);
+        self.tx("alice", SMsg::FmPosClose("u-a".into(), Some((lp.clone(), 1))), vec![]);
+        self.tx("alice", SMsg::FmPosClose("u-a".into(), None), vec![]);
+        self.tx("bob", SMsg::FmPosCreate { id: Some("b".into()), dur: DAY, receiver: None }, vec![(lp.clone(), 1000)]);
+        self.tx("bob", SMsg::FmPosCreate { id: Some("b2".into()), dur: DAY, receiver: None }, vec![(lp.clone(), 1000)]);
+        self.tx("carol", SMsg::FmPosCreate { id: Some("c".into()), dur: 31_556_926, receiver: None }, vec![(lp.clone(), 1000)]);
+        self.next_epoch();
+        let owner = self.current_owner("FM");
+        let mut u = SFmUpdate::default(); u.min_unlock = Some(15_778_476); u.max_unlock = Some(15_778_476);
+        self.tx(&owner, SMsg::FmUpdateConfig(u), vec![]);
+        self.tx("bob", SMsg::FmPosClose("u-b".into(), None), vec![]);
+        self.tx("bob", SMsg::FmPosWithdraw("u-b2".into(), Some(true)), vec![]);
+        self.tx("carol", SMsg::FmPosExpand("u-c".into()), vec![(lp.clone(), 500)]);
+        self.tx("carol", SMsg::FmPosClose("u-c".into(), Some((lp.clone(), 700))), vec![]);
+        self.next_epoch();
+        for u in ["alice", "bob", "carol"] { self.q_rewards(u, None); self.tx(u, SMsg::FmClaim(None), vec![]); }
+    }
+
+    /// refunds of closed farms that fail: one owner with several expired farms, native reward denoms, manual and
+    /// automatic closing, every position of the failing bank call
+    fn probe_failing_refunds(&mut self) {
+        let Some(p) = self.mk_pool("a", &[("uom", 6), ("uusd", 6)], None, Self::std_fees()) else { return; };
+        let lp = self.lp_of(&p);
+        self.plain_provide("alice", &p, vec![("uom".into(), 1_000_000_000), ("uusd".into(), 1_000_000_000)], None);
+        self.tx("alice", SMsg::FmPosCreate { id: Some("a".into()), dur: DAY, receiver: None }, vec![(lp.clone(), 1000)]);
+        let fee_denom = self.sim.sym(&self.fm_cfg().create_farm_fee.denom);
+        let which = self.rng.below(3);
+        self.mk_farm("bob", &lp, "uusdc", 2000, 2, Some("x1".into()), 1);
+        self.mk_farm("bob", &lp, &fee_denom, 1000, 2, Some("x2".into()), 1);
+        self.next_epoch();
+        let d = self.epoch_secs();
+        match which {
+            0 => {
+                // manual close with the refund failing
+                let k = self.rng.below(3);
+                self.push(SOp::SetFault(k));
+                self.tx("bob", SMsg::FmCloseFarm("m-x2".into()), vec![]);
+                self.push(SOp::SetFault(k));
+                self.tx("bob", SMsg::FmCloseFarm("m-x1".into()), vec![]);
+            }
+            _ => {
+                // both expire; a third party's creation sweeps them, one bank call of that transaction failing
+                self.advance(d * 45);
+                let k = self.rng.below(6);
+                self.push(SOp::SetFault(k));
+                self.mk_farm("carol", &lp, "uom", 1000, 2, Some("n".into()), 1);
+                self.mk_farm("carol", &lp, "uom", 1000, 2, Some("n2".into()), 1);
+            }
+        }
+        self.tx("alice", SMsg::FmClaim(None), vec![]);
+    }
+
+    /// very large 18-decimals reserves: withdrawals of awkward fractions; stableswap pools of 6/8 and >18 decimals
+    fn probe_big_and_decimals(&mut self) {
+        let Some(p) = self.mk_pool("w", &[("aweth", 18), ("uom", 6)], None, Self::std_fees()) else { return; };
+        let lp = self.lp_of(&p);
+        self.plain_provide("alice", &p, vec![("aweth".into(), 4_000_003 * 10u128.pow(18) + 12_345), ("uom".into(), 4_000_000 * 10u128.pow(6))], None);
+        self.plain_provide("bob", &p, vec![("aweth".into(), 1_333_333 * 10u128.pow(18) + 7), ("uom".into(), 1_333_333 * 10u128.pow(6))], None);
+        let bal = self.sim.balance("bob", &lp);
+        for part in [bal / 3, bal / 7, 1, bal / 1_000_003] { if part > 0 { self.tx("bob", SMsg::PmWithdraw { pool: p.clone() }, vec![(lp.clone(), part)]); } }
+        let Some(s) = self.mk_pool("m", &[("uusd", 6), ("ubtc", 8)], Some(100), Self::zero_fees()) else { return; };
+        self.plain_provide("alice", &s, vec![("uusd".into(), 1_000_000 * 10u128.pow(6)), ("ubtc".into(), 1_000_000 * 10u128.pow(8))], None);
+        self.swap_to("carol", &s, ("ubtc".into(), 1_000 * 10u128.pow(8)), "uusd");
+        self.swap_to("carol", &s, ("uusd".into(), 1_000 * 10u128.pow(6)), "ubtc");
+        self.query(SQuery::ReverseSimulation { ask: ("uusd".into(), 10u128.pow(9)), offer_denom: "ubtc".into(), pool: s.clone() });
+        if let Some(x) = self.mk_pool("z", &[("uusd", 6), ("aweth", 24)], Some(100), Self::zero_fees()) {
+            self.plain_provide("alice", &x, vec![("uusd".into(), 1_000 * 10u128.pow(6)), ("aweth".into(), 1_000 * 10u128.pow(24))], None);
+            self.swap_to("carol", &x, ("aweth".into(), 10u128.pow(24)), "uusd");
+            self.swap_to("carol", &x, ("uusd".into(), 10u128.pow(6)), "aweth");
+            self.drain(&x);
+        }
+        self.drain(&p);
+    }
+}
+
+pub fn generate_probes(seed: u64, count: usize) -> Family {
+    let mut fam = Family::new(
+        "probe-scn",
+        "From MD.Model Require Import Base Ownable Epoch PoolMath Types PoolManager FarmManager Chain CasesChain.",
+        "chain_case",
+        "run_chain_case",
+        "deterministic probe scripts, one per narrow situation (asset order after a slippage-protected deposit, foreign lock identifiers, malformed route junctions, extra fees, all feature-switch combinations, single-asset corner cases, farm funds in the fee denom, expiry windows, penalty sharing, thirds, position limit, empty claims, fractional weights, failing refunds, huge and unusual decimals); amounts vary with the PRNG; full canonical snapshot compared after every operation",
+    );
+    type F = fn(&mut Gen);
+    let list: Vec<(&str, F)> = vec![
+        ("asset-order", Gen::probe_asset_order as F), ("foreign-lock", Gen::probe_foreign_lock as F), ("routes", Gen::probe_routes as F),
+        ("extra-fees", Gen::probe_extra_fees as F), ("toggles", Gen::probe_toggles as F), ("single-sided", Gen::probe_single_sided as F),
+        ("farm-funds", Gen::probe_farm_funds as F), ("expiry-window", Gen::probe_expiry_window as F), ("penalty-split", Gen::probe_penalty_split as F),
+        ("thirds", Gen::probe_thirds as F), ("position-limit", Gen::probe_position_limit as F), ("empty-claims", Gen::probe_empty_claims as F),
+        ("fractional-weights", Gen::probe_fractional_weights as F), ("failing-refunds", Gen::probe_failing_refunds as F), ("big-and-decimals", Gen::probe_big_and_decimals as F),
+    ];
+    let mut rng = Rng::new(seed ^ 0x9B0B);
+    let mut i = 0usize;
+    while fam.cases.len() < count {
+        let (name, f) = list[i % list.len()];
+        i += 1;
+        let mut r = rng.fork();
+        let fee = *r.pick(&[("uom", 1000u128), ("uusd", 1000), ("uom", 0)]);
+        let mut g = finding_genesis(fee, 3);
+        g.fm_penalty = *r.pick(&[DEC / 10, DEC / 2]);
+        g.base_denoms = vec!["uom".into(), "uusd".into(), "uusdc".into(), "ubtc".into(), "aweth".into()];
+        let big = 10u128.pow(34);
+        g.balances = g.users.iter().map(|u| (u.clone(), g.base_denoms.iter().map(|d| (d.clone(), big)).collect())).collect();
+        let Some((mut gen, g, snap0)) = new_gen_with(&mut r, g) else { continue; };
+        f(&mut gen);
+        for (k, v) in gen.hist.iter() { fam.count_n(k, *v); }
+        fam.count(&format!("probe:{}", name));
+        let accepted = gen.ops.iter().zip(gen.oks.iter()).filter(|(o, ok)| **ok && matches!(o, SOp::Tx { .. })).count();
+        let mut c = case_of(&gen, &g, &snap0, accepted >= 6);
+        c.descr = format!("PROBE {}\n{}", name, c.descr);
+        fam.push(c);
+        if i > 4 * count + 64 { break; }
+    }
+    fam
+}
